@@ -693,7 +693,12 @@ template <typename T> struct has_suc<T, std::void_t<decltype(std::declval<T&>().
 template <typename T, typename = void> struct has_wid : std::false_type {};
 template <typename T> struct has_wid<T, std::void_t<decltype(std::declval<T&>().widening_assign(std::declval<const T&>()))>> : std::true_type {};
 
-struct Orc { pplv::Rng R; int id; long events; const char* only; Orc(long seed) : R(seed), id(0), events(0), only(0) {} };
+// progress of the oracle child, shared with the parent so that a crash is attributed to an operation and a side
+struct OrcProgress { volatile long next_case; volatile int side; volatile int done; char op[64]; volatile long events;
+                     volatile int cur_op; volatile int skip_upto; };
+static OrcProgress* g_op = 0;
+struct Orc { pplv::Rng R; int id; long events; const char* only; long seed; int opidx;
+             Orc(long s) : R(s), id(0), events(0), only(0), seed(s), opidx(0) {} };
 
 enum { CMP_BOOL = 1, CMP_OBJ = 2, CMP_VAL = 4 };
 
@@ -703,24 +708,33 @@ static void orc_check(Orc& O, const char* dom, const char* op, const TypeInfo& t
   if (O.only && strcmp(O.only, op)) return;
   T cx(*reinterpret_cast<const T*>(hx));
   std::string cxx = "ok"; long xout = 0, xret = 0;
+  if (g_op) { strncpy(g_op->op, op, 63); g_op->cur_op = O.opidx; g_op->side = 1; }
   try { xret = xfun(cx, xout); } catch (...) { cxx = pplv::exc_class(); }
+  if (g_op) g_op->side = 3;
+  bool cxx_ok = cx.OK();      // if the C++ object itself is broken by the operation, that is not the wrapper's doing
   g_hcalls = 0; g_hcode = 0; std::string esc = "-"; long cout_ = 0; int r = -9999;
+  if (g_op) g_op->side = 2;
   g_in_call = true;
   try { r = cfun(cout_); } catch (...) { esc = pplv::exc_class(); }
   g_in_call = false;
+  if (g_op) g_op->side = 4;
   int hc = g_hcalls, hco = g_hcode;
   int usable = ti.ok ? (ti.ok(hx) > 0) : 1;
+  if (!cxx_ok) usable = 1;
   bool same = true; std::string why;
   if (cxx == "ok") {
     if (r < 0 || esc != "-" || hc != 0) { same = false; why = "c_failed"; }
     if (same && (cmp & CMP_BOOL) && r != (xret ? 1 : 0)) { same = false; why = "bool"; }
     if (same && (cmp & CMP_VAL) && cout_ != xout) { same = false; why = "value"; }
-    if (same && (cmp & CMP_OBJ) && !(*reinterpret_cast<const T*>(hx) == cx)) { same = false; why = "object"; }
+    // (a C++ result that fails its own OK() is a library defect, not the wrapper's: no object comparison then)
+    if (same && cxx_ok && (cmp & CMP_OBJ) && !(*reinterpret_cast<const T*>(hx) == cx)) { same = false; why = "object"; }
+    if (!cxx_ok) why = "cxx_result_not_OK";
   } else {
     // the C++ operation threw: code and handler are judged by the driver; the handle must stay usable
     J->line(fmt("disp %d ppl_%s_%s %s thrown=1 ret=%d hcalls=%d hcode=%d esc=%s", 1000000 + O.id, dom, op, model_class(cxx), r, hc, hco, esc.c_str()));
     if (!usable) { same = false; why = "unusable"; }
   }
+  if (g_op) g_op->side = 0;
   J->line(fmt("orc %d %s %s c=%d cxx=%s%s hcalls=%d hcode=%d usable=%d same=%d %s", O.id++, dom, op, r,
               cxx == "ok" ? "ok:" : "exc:", cxx == "ok" ? std::to_string(xret).c_str() : cxx.c_str(), hc, hco, usable, same ? 1 : 0, why.c_str()));
   ++O.events;
@@ -729,9 +743,12 @@ static void orc_check(Orc& O, const char* dom, const char* op, const TypeInfo& t
 template <typename T, typename H, typename CH>
 static void oracle_domain(const DomApi<H, CH>& A, Orc& O, long cases) {
   const TypeInfo& ti = g_types[A.tid];
-  pplv::Rng& R = O.R;
   const bool relational_only = strstr(A.name, "BD_Shape") || strstr(A.name, "Octagonal") || strstr(A.name, "Box");
-  for (long cs = 0; cs < cases; ++cs) {
+  for (long cs = g_op->next_case; cs < cases; ++cs) {
+    g_op->next_case = cs;
+    pplv::Rng R((uint64_t) O.seed * 7919 + (uint64_t) A.tid * 104729 + (uint64_t) cs);   // one stream per case: a restart replays nothing
+    O.id = 100000 * (int) A.tid + 100 * (int) cs;
+    O.opidx = 0;
     int dx = 1 + R.below(3);
     int dy = R.chance(1, 6) ? 1 + R.below(3) : dx;          // sometimes a dimension-incompatible operand
     // build X and Y on both sides
@@ -741,12 +758,17 @@ static void oracle_domain(const DomApi<H, CH>& A, Orc& O, long cases) {
     bool y_sub = (dy == dx) && R.chance(1, 2);
     if (y_sub) ys = xs;
     for (int i = 0; i < ny; ++i) { RCon c = rand_con(R, dy, relational_only || R.chance(1, 2)); if (c.rel == 3) c.rel = 0; ys.push_back(c); }
+    if (getenv("C20_VERBOSE")) {
+      fprintf(stderr, "case %ld %s dx=%d dy=%d\n", cs, A.name, dx, dy);
+      for (auto& c : xs) fprintf(stderr, "  X: %ld %ld %ld | %ld rel %d\n", c.co[0], c.co[1], c.co[2], c.k, c.rel);
+      for (auto& c : ys) fprintf(stderr, "  Y: %ld %ld %ld | %ld rel %d\n", c.co[0], c.co[1], c.co[2], c.k, c.rel);
+    }
     void* hx0 = 0; void* hy = 0;
     ti.newdim(&hx0, dx, 0); ti.newdim(&hy, dy, 0);
     T X(dx), Y(dy);
     for (auto& c : xs) { ppl_Constraint_t k = c_con(c); ti.refine(hx0, k); ppl_delete_Constraint(k); X.refine_with_constraint(x_con(c)); }
     for (auto& c : ys) { ppl_Constraint_t k = c_con(c); ti.refine(hy, k); ppl_delete_Constraint(k); Y.refine_with_constraint(x_con(c)); }
-    {
+    if (g_op->skip_upto == 0) {
       bool same = (*reinterpret_cast<const T*>(hx0) == X) && (*reinterpret_cast<const T*>(hy) == Y);
       J->line(fmt("orc %d %s build c=0 cxx=ok:0 hcalls=0 hcode=0 usable=1 same=%d %s", O.id++, A.name, same ? 1 : 0, same ? "" : "object"));
       ++O.events;
@@ -764,6 +786,7 @@ static void oracle_domain(const DomApi<H, CH>& A, Orc& O, long cases) {
     long den = R.chance(1, 10) ? 0 : (R.chance(1, 2) ? 1 : R.range(1, 3));
     ppl_Coefficient_t kden = mk_coeff(den); PPL::Coefficient xden(den);
     unsigned m = 1 + R.below(2);
+    if (getenv("C20_VERBOSE")) fprintf(stderr, "  var=%u m=%u den=%ld le=%ld %ld %ld | %ld (dim %d)\n", var, m, den, lco[0], lco[1], lco[2], lk, ldim);
     long cgm = R.chance(1, 2) ? 0 : 2;
     ppl_Coefficient_t kmod = mk_coeff(cgm); ppl_Congruence_t kcg = 0; ppl_new_Congruence(&kcg, kle, kmod);
     PPL::Congruence xcg = (xle %= 0) / cgm;
@@ -771,7 +794,8 @@ static void oracle_domain(const DomApi<H, CH>& A, Orc& O, long cases) {
     // a fresh copy of X per operation
     auto fresh = [&]() -> void* { void* h = 0; ti.copy(&h, hx0); return h; };
 #define OP(NAME, CMP, CCALL, ...) \
-    if (A.NAME) { void* hx = fresh(); H hh = (H) hx; CH ch = (CH) hx; (void) hh; (void) ch; \
+    ++O.opidx; \
+    if (A.NAME && O.opidx > g_op->skip_upto) { void* hx = fresh(); H hh = (H) hx; CH ch = (CH) hx; (void) hh; (void) ch; \
       orc_check<T>(O, A.name, #NAME, ti, hx, CMP, [&](long& out) -> int { (void) out; return CCALL; }, \
                    [&](T& cx, long& out) -> long { (void) out; (void) cx; __VA_ARGS__; }); \
       ti.del(hx); }
@@ -780,7 +804,7 @@ static void oracle_domain(const DomApi<H, CH>& A, Orc& O, long cases) {
     OP(is_bounded, CMP_BOOL, A.is_bounded(ch), return cx.is_bounded())
     OP(is_topologically_closed, CMP_BOOL, A.is_topologically_closed(ch), return cx.is_topologically_closed())
     OP(is_discrete, CMP_BOOL, A.is_discrete(ch), return cx.is_discrete())
-    if constexpr (has_cip<T>::value) { OP(contains_integer_point, CMP_BOOL, A.contains_integer_point(ch), return cx.contains_integer_point()) }
+    if constexpr (has_cip<T>::value) if (X.is_bounded()) { OP(contains_integer_point, CMP_BOOL, A.contains_integer_point(ch), return cx.contains_integer_point()) }
     OP(OK, CMP_BOOL, A.OK(ch), return cx.OK())
     OP(space_dimension, CMP_VAL, ({ ppl_dimension_type d = 99; int r_ = A.space_dimension(ch, &d); out = (long) d; r_; }), out = (long) cx.space_dimension(); return 0)
     OP(affine_dimension, CMP_VAL, ({ ppl_dimension_type d = 99; int r_ = A.affine_dimension(ch, &d); out = (long) d; r_; }), out = (long) cx.affine_dimension(); return 0)
@@ -835,20 +859,33 @@ static void oracle_domain(const DomApi<H, CH>& A, Orc& O, long cases) {
     ppl_delete_Constraint(kc); ppl_delete_Linear_Expression(kle); ppl_delete_Coefficient(kden);
     ppl_delete_Coefficient(kmod); ppl_delete_Congruence(kcg);
     ti.del(hx0); ti.del(hy);
+    g_op->events = O.events;
+    g_op->skip_upto = 0;
   }
+  g_op->done = 1;
 }
 
 static int run_oracle(long seed, long cases, const char* only) {
   using namespace Parma_Polyhedra_Library;
   // each domain in its own child: PPL itself aborts on some inputs of the unchanged tree
-#define DOM(HN, CXX) { \
-    Orc Od(seed * 1000003 + (long) T_##HN); Od.only = only; Od.id = 100000 * (int) T_##HN; \
-    fflush(stdout); pid_t pid = fork(); \
-    if (pid == 0) { struct rlimit rl; rl.rlim_cur = 120; rl.rlim_max = 125; setrlimit(RLIMIT_CPU, &rl); \
-      struct rlimit core; core.rlim_cur = core.rlim_max = 0; setrlimit(RLIMIT_CORE, &core); \
-      oracle_domain<CXX>(api_##HN, Od, cases); J->line(fmt("end oracle_%s %ld", #HN, Od.events)); _exit(0); } \
-    int st = 0; waitpid(pid, &st, 0); \
-    if (WIFSIGNALED(st)) J->line(fmt("crash %s oracle %s", pplv::signal_name(WTERMSIG(st)), #HN)); }
+  g_op = (OrcProgress*) mmap(0, sizeof(OrcProgress), PROT_READ | PROT_WRITE, MAP_SHARED | MAP_ANONYMOUS, -1, 0);
+  const char* domf = getenv("C20_DOM");
+#define DOM(HN, CXX) if (!domf || !strcmp(domf, #HN)) { \
+    memset((void*) g_op, 0, sizeof *g_op); int crashes = 0; long total = 0; \
+    if (getenv("C20_NOFORK")) { Orc Od(seed); Od.only = only; oracle_domain<CXX>(api_##HN, Od, cases); } \
+    while (!g_op->done && crashes < 50) { \
+      Orc Od(seed); Od.only = only; \
+      fflush(stdout); pid_t pid = fork(); \
+      if (pid == 0) { struct rlimit rl; rl.rlim_cur = 40; rl.rlim_max = 45; setrlimit(RLIMIT_CPU, &rl); \
+        struct rlimit core; core.rlim_cur = core.rlim_max = 0; setrlimit(RLIMIT_CORE, &core); \
+        oracle_domain<CXX>(api_##HN, Od, cases); _exit(0); } \
+      int st = 0; waitpid(pid, &st, 0); total += g_op->events; g_op->events = 0; \
+      if (g_op->done) break; \
+      J->line(fmt("crash %s oracle %s %s side=%s case=%ld seed=%ld", WIFSIGNALED(st) ? pplv::signal_name(WTERMSIG(st)) : "exit", \
+                  #HN, g_op->op, g_op->side == 1 ? "cxx" : g_op->side == 2 ? "c" : g_op->side == 3 ? "cxx_post" : g_op->side == 4 ? "c_post" : "harness", (long) g_op->next_case, seed)); \
+      ++crashes; g_op->skip_upto = g_op->cur_op; g_op->side = 0;   /* resume the same case after the crashed operation */ \
+    } \
+    J->line(fmt("end oracle_%s %ld", #HN, total)); }
   C20_FOR_EACH_DOMAIN(DOM)
 #undef DOM
   J->line("end oracle 13");
